@@ -156,9 +156,10 @@ CHECKS['C02'] = ('exploration', 'enum',
     '192 URLs x 2400 link records, every pair of groups on a reduced product, and in thorough all '
     '2^15 option subsets on a covering set: a filter (or the conjunction, or consult_filters with '
     'is_redirect) that lets a URL pass which the reference rule rejects is a violation; the '
-    'redirect waiver must apply only when span-hosts is the sole failure. Nine end-to-end crawls '
+    'redirect waiver must apply only when span-hosts is the sole failure. Twelve end-to-end crawls '
     'offer out-of-scope links via pages, requisites and all five redirect codes, each with robots '
-    'checking off and on (robots.txt may only be requested from an origin being visited).',
+    'checking off and on (robots.txt may only be requested from an origin being visited), and one '
+    'crawl offers them through sitemaps.',
     'vt/refs/scope.py is the specification; over-restrictive verdicts are counted, not flagged '
     '(nothing is requested); what robots.txt rules do is covered by C20.', '5/C02')
 CHECKS['C16'] = ('exploration', 'enum',
